@@ -3,7 +3,7 @@ import BridgeVerif.Lemmas.MiniPyFuel
 /-!
 # `MainThread` AS TRANSLATED (`_sync_event`, `deal`, `bidding_phase`) is the reactive model of Model/MainThread.lean
 -/
-namespace Bridge.Translated
+namespace Bridge.Translated.MainA
 open Bridge Bridge.Py Bridge.Generated.PyCore
 
 /-! ## (0) `_sync_event` -/
@@ -535,4 +535,4 @@ example : callFn P 200 m_MainThread_bidding_phase
   main_bidding_illegal_raises 40 3 .N .none exInBad (by decide +kernel) (BidMsgsOK_of_check 40 3 _ _ (by decide +kernel))
     [] (.dict []) [] [] .none 200 (by decide)
 
-end Bridge.Translated
+end Bridge.Translated.MainA
